@@ -3,6 +3,9 @@
 package genfault
 
 import (
+	"sort"
+	"strings"
+
 	"tsim/kernel"
 	"tsim/node"
 )
@@ -28,4 +31,46 @@ func Run(rec *kernel.Rec, c *node.Chain, sel int64) {
 	default:
 		rec.Probe("genesis_edit.accepted." + r.Edit)
 	}
+}
+
+// Restart is the hard-fork style restart shared by all worlds: the chain is exported in full and a fresh
+// instance is initialised from the export at the next height; the run continues on it. The teleport
+// module stores must be identical across the restart (C13).
+func Restart(rec *kernel.Rec, c *node.Chain, world string) bool {
+	if c == nil || c.Halted != "" || c.InBlock {
+		return false
+	}
+	pre := map[string]map[string]string{"xibc": c.DumpStore("xibc"), "aggregate": c.DumpStore("aggregate")}
+	reason := c.ExportRestart()
+	if reason == "busy" {
+		return false
+	}
+	rec.Fault("node.export_restart")
+	if reason != "" {
+		cls := reason
+		if i := strings.Index(cls, ":"); i > 0 {
+			cls = cls[:i]
+		}
+		rec.Violate("C13", "export_restart", world+":"+cls, "the %s world's chain cannot restart from its own full export: %s", world, reason)
+		return false
+	}
+	for _, st := range []string{"xibc", "aggregate"} {
+		post := c.DumpStore(st)
+		var bad []string
+		for k, v := range pre[st] {
+			if w, ok := post[k]; !ok || w != v {
+				bad = append(bad, k)
+			}
+		}
+		for k := range post {
+			if _, ok := pre[st][k]; !ok {
+				bad = append(bad, k)
+			}
+		}
+		if len(bad) > 0 {
+			sort.Strings(bad)
+			rec.Violate("C13", "export_restart_changed_state", world+":"+st, "restart of the %s world's chain from its own export changed %d key(s) of store %s (e.g. %q)", world, len(bad), st, bad[0])
+		}
+	}
+	return true
 }
